@@ -164,10 +164,37 @@ ASSUME \A m \in {"contract", "account"}, s \in {"T.self", "T.new", "T.sibling", 
 \* an implemented requirement is the implementer's own declaration
 ASSUME \A w \in IWheres, m \in {"contract", "account"}, k \in {"implfun", "implfield"} : IPermitted(w, m, k, "T.self")
 
+\* ---------------------------------------------------------------- initializer shapes: "a let field is assigned only once"
+\* Path-exact, like Linearity: the initializer is  FIRST ; JUMP ; SECOND  and is BAD iff some path through it
+\* assigns the let field twice.
+\*   FIRST   uncond | ifthen (if c1 { x = 1 }) | ifboth (both branches assign) | elseonly (if c1 {} else { x = 1 })
+\*           | while (while i < n { x = 1 }) | switch (switch n { case 2: x = 1  default: skip })
+\*   JUMP    none | ifreturn (if c2 { return }) | loopreturn (while c2 { return })
+\*   SECOND  none | uncond (x = 2) | cond (if c3 { x = 2 })
+\* Number of assignments a part can contribute on some path: its minimum and its maximum.
+SFirsts  == {"uncond", "ifthen", "ifboth", "elseonly", "while", "switch"}
+SJumps   == {"none", "ifreturn", "loopreturn"}
+SSeconds == {"none", "uncond", "cond"}
+SFKinds  == {"letstruct", "letres"}          \* let x: Int in a struct; let r: @R in a resource (assigned with <-)
+MinFirst(f) == IF f \in {"uncond", "ifboth"} THEN 1 ELSE 0
+MaxFirst(f) == IF f = "while" THEN 2 ELSE 1                     \* a loop body may run twice (or more)
+MinSecond(x) == IF x = "uncond" THEN 1 ELSE 0
+MaxSecond(x) == IF x = "none" THEN 0 ELSE 1
+\* every jump can also be passed, so the maxima of the two parts add up
+ShapeBad(f, j, x) == MaxFirst(f) + MaxSecond(x) >= 2
+\* outside this property (definite initialisation): every path, also one that returns early, must assign at least once
+ShapeWellFormed(f, j, x) == (j # "none" => MinFirst(f) >= 1) /\ MinFirst(f) + MinSecond(x) >= 1
+ShapeTable == {[first |-> f, jump |-> j, second |-> x, fkind |-> k, bad |-> ShapeBad(f, j, x)] :
+                 <<f, j, x, k>> \in {q \in SFirsts \X SJumps \X SSeconds \X SFKinds : ShapeWellFormed(q[1], q[2], q[3])}}
+\* laws: a single unconditional assignment is fine whatever jump follows; any second assignment after a possible first is bad
+ASSUME \A j \in SJumps : ~ShapeBad("uncond", j, "none")
+ASSUME \A f \in SFirsts, j \in SJumps, x \in SSeconds \ {"none"} : ShapeBad(f, j, x)
+
 \* ---------------------------------------------------------------- the table (printed once, at start-up)
 ASSUME \A row \in Table : PrintT(ToJson([kind |-> "access"] @@ row))
 ASSUME \A irow \in InitTable : PrintT(ToJson([kind |-> "init"] @@ irow))
 ASSUME \A hrow \in ITable : PrintT(ToJson([kind |-> "inh"] @@ hrow))
+ASSUME \A srow \in ShapeTable : PrintT(ToJson([kind |-> "initshape"] @@ srow))
 
 VARIABLE done
 Init == done = FALSE
